@@ -110,11 +110,13 @@ def strat(draw, tier="quick"):
     m_data = st.fixed_dictionaries({"op": st.just("data"), "as": st.sampled_from(["array", "container", "container_with_sources"]), "noise": st.lists(st.floats(-1, 1), min_size=8, max_size=8),
                                     "src": S.source(n, "dsrc", "data", "y" if t == "xy" else None, sc, allow_relative=True)})
     do_fit = st.fixed_dictionaries({"op": st.just("do_fit")})
+    # a fit that cannot run: every parameter fixed -> do_fit raises; the parameters are released again, so the configuration is what it was
+    failed_fit = st.just({"op": "do_fit_all_fixed"})
     read = st.fixed_dictionaries({"op": st.just("read"), "obs": st.integers(0, 80)})
     read_key = st.fixed_dictionaries({"op": st.just("read_key"), "obs": st.sampled_from(key_obs)})
     read_min = st.fixed_dictionaries({"op": st.just("read_key"), "obs": st.sampled_from(min_obs)})
     mutator = st.one_of(m_source, m_toggle, m_con, m_set, m_setall, m_par, m_data, m_data)
-    op = st.one_of(m_source, m_toggle, m_con, m_set, m_setall, m_par, m_data, do_fit, read, read, read, read_key).map(lambda o: [o])
+    op = st.one_of(m_source, m_toggle, m_con, m_set, m_setall, m_par, m_data, do_fit, read, read, read, read_key, do_fit, read, read_key, failed_fit).map(lambda o: [o])
     # macros (expanded into plain ops; cases, replays and shrinking are unchanged).  As single ops the patterns "read X, change something X depends on" and
     # "fit, read a result, change something, fit again" are rare in lists of <= 14 ops; the final sweep re-reads every observable, so a macro placed anywhere
     # gives "X read - mutation - X read again" (seeded changes C01-b, C07-c: caches keyed on too little)
@@ -421,6 +423,26 @@ def run(case):
             cfg.fitted = False
             mutated("data")
             labels.add(f"data_replaced_by_{op['as']}")
+        elif k == "do_fit_all_fixed":
+            free_now = [nm for nm in names if nm not in cfg.spec["fixed"]]
+            if cfg.fitted:
+                cfg.values.update(dict(zip(names, np.asarray(H.parameter_values, float))))
+            with guard("fix_parameter"):
+                for nm in free_now:
+                    H.fix_parameter(nm)
+            try:
+                H.do_fit()
+                raised = False
+            except Exception:  # noqa
+                raised = True
+            with guard("release_parameter"):
+                for nm in free_now:
+                    H.release_parameter(nm)
+            if not raised:
+                raise Discard("do_fit with every parameter fixed did not raise (nothing to test)")
+            cfg.fitted = False
+            mutated("fix")
+            labels.add("failed_do_fit_all_parameters_fixed")
         elif k == "do_fit":
             if not _pd_ok(cfg, cfg.values):
                 continue
